@@ -350,11 +350,25 @@ func handlerGoroutines() (total, parkedSubs int, dump string) {
 		}
 		total++
 		head, _, _ := strings.Cut(g, "\n")
-		if strings.Contains(g, "api.(*DatabaseAPI).processSub") && strings.Contains(head, "[select") {
+		if strings.Contains(head, "[select") && parkedInProcessSub(g) {
 			parkedSubs++
 		}
 	}
 	return
+}
+
+// parkedInProcessSub: the select the goroutine waits in is the one of processSub's receive loop - not one further down
+// (a subscription handler that is inside send, where the reply consumer writes to a storage whose commit path waits in
+// a select of its own, is busy, not parked).
+func parkedInProcessSub(g string) bool {
+	lines := strings.Split(g, "\n")
+	for _, l := range lines[1:] {
+		if strings.HasPrefix(l, "\t") || strings.HasPrefix(l, "runtime.") {
+			continue
+		}
+		return strings.Contains(l, "api.(*DatabaseAPI).processSub(")
+	}
+	return false
 }
 
 // waitBound is generous; every wait below is for goroutines that only have
